@@ -25,7 +25,8 @@ PATTR = {"bsc": "crossover_prob", "bec": "erasure_prob", "z": "error_prob"}
 def run_item(item, tl, mutate=None):
     kind, alpha, n, dt = item["kind"], item["alphabet"], item["n"], item["dtype"]
     pmode = item["p"]           # 'sym' | 0.0 | 1.0
-    config = f"{kind} alphabet={alpha} n={n} dtype={dt} p={pmode}"
+    config = item.get("config") or f"{kind} alphabet={alpha} n={n} dtype={dt} p={pmode}"
+    shape = tuple(item.get("shape") or (n,))
     obs = []
 
     def rec(clause, status, **kw):
@@ -37,7 +38,7 @@ def run_item(item, tl, mutate=None):
     P = z3.Real("p")
 
     def run(ctx):
-        b = fresh_bits("b", (n,), dtype)
+        b = fresh_bits("b", shape, dtype)
         if alpha == "bipolar":
             x = 2 * b - 1
         else:
@@ -130,7 +131,7 @@ def real_run(item, w):
     kind, alpha, n, dt = item["kind"], item["alphabet"], item["n"], item["dtype"]
     with _disable_current_modes():
         ch = mk(kind, float(w["p"]))
-        b = torch.tensor(w["b"]).to(getattr(torch, dt))
+        b = torch.tensor(w["b"]).to(getattr(torch, dt)).reshape(tuple(item.get("shape") or (n,)))
         x = 2 * b - 1 if alpha == "bipolar" else b
         x0 = x.clone()
         us = list(w["u"])
@@ -212,6 +213,16 @@ def all_items():
                         continue   # the default erasure symbol -1 collides with the bipolar alphabet: outside the statement
                     it = dict(kind=kind, alphabet=alpha, n=n if kind != "z" else min(n, 5), dtype=dt, p=p)
                     it["config"] = f"{kind} alphabet={alpha} n={it['n']} dtype={dt} p={p}"
+                    items.append(it)
+    # batched / nested layouts (elements keep their row-major order, one draw per element)
+    for kind in ("bsc", "bec", "z"):
+        for alpha in ("binary", "bipolar"):
+            if kind == "bec" and alpha == "bipolar":
+                continue
+            for shape in ((2, 2), (1, 4), (2, 1, 2), (4, 1)):
+                for p in ("sym", 1.0) if alpha == "bipolar" else ("sym",):
+                    it = dict(kind=kind, alphabet=alpha, n=4, dtype="float32", p=p, shape=list(shape))
+                    it["config"] = f"{kind} alphabet={alpha} shape={shape} dtype=float32 p={p}"
                     items.append(it)
     items.append(dict(selftest=True, config="selftest"))
     return items
